@@ -47,6 +47,13 @@ fn main() {
             println!("{}", engine::print_case(&*prop, tier, idx));
             0
         }
+        "--fuzz-one" => {
+            // vcheck --fuzz-one <ID> <file>: run one libFuzzer input through the fuzz driver (natively)
+            let data = std::fs::read(&args[2]).unwrap_or_default();
+            vharness::fuzz::fuzz_one(&args[1], &data);
+            println!("ok");
+            0
+        }
         "--run-case" => {
             let prop = vharness::props::by_id(&args[1]).expect("property");
             let repeats: u32 = args[2].parse().unwrap();
